@@ -375,7 +375,7 @@ def _contains(outer: ast.AST, inner: ast.AST) -> bool:
 
 
 # -------------------------------------------------------------- STALE-ALIAS
-@rule("STALE-ALIAS", ["C01", "C04", "C10"], floor=6, section="3.5")
+@rule("STALE-ALIAS", ["C01", "C04", "C10"], floor=3, section="3.5")
 def stale_alias(ctx: Ctx) -> List[Ob]:
     """a local alias of a child list is not used to change the list after a statement that may have replaced that list (`x._children = None` / `= [..]`): the change would go to a detached list"""
     from ..cfg import _binds
